@@ -146,7 +146,7 @@ static int explains(const c18_prog_t* q, const exec_t* ex, const exec_t* ex2, in
 	for (i = 0; i < q->nseq; ++i)
 	{
 		t = q->seq_tid[i]; k = q->seq_op[i];
-		if (ex2->obs.ret[t][k] != ex->obs.ret[t][k] || memcmp(ex2->obs.out[t][k], ex->obs.out[t][k], 32))
+		if (ex2->obs.ret[t][k] != ex->obs.ret[t][k] || memcmp(ex2->obs.out[t][k], ex->obs.out[t][k], C18_OUT))
 		{ *bt = t; *bk = k; return 0; }
 	}
 	return 1;
@@ -246,7 +246,7 @@ static void judge(const c18_prog_t* prog, const exec_t* ex, verdict_t* v)
 			/* distinct output blocks */
 			{
 				const unsigned char* blocks[VS_MAXT * C18_MAXOPS]; int nb = 0, a, b;
-				static const unsigned char zero[32];
+				static const unsigned char zero[C18_OUT];
 				for (t = 1; t <= prog->nthr; ++t)
 					for (k = 0; k < prog->nops[t]; ++k)
 						if ((prog->ops[t][k].code == 'S' || prog->ops[t][k].code == 'R'))
@@ -259,6 +259,28 @@ static void judge(const c18_prog_t* prog, const exec_t* ex, verdict_t* v)
 						}
 				for (a = 0; a < nb; ++a) for (b = a + 1; b < nb; ++b)
 					if (memcmp(blocks[a], blocks[b], 32) == 0) vadd(v, "RNG two requests received the same output block");
+				/* the statement itself ("no two threads receiving the same generator output"): no 8 octets of one request's output occur
+				   in another request's output -- requests of any length, so that leftovers of a partly used block are covered as well.
+				   (The linearisation oracle below cannot see this: the sequential replay of the same code repeats the same output.) */
+				{
+					int t2, k2, i, j2, hit = 0;
+					for (t = 1; t <= prog->nthr && !hit; ++t) for (k = 0; k < prog->nops[t] && !hit; ++k)
+					{
+						int n = prog->ops[t][k].arg;
+						if ((prog->ops[t][k].code != 'S' && prog->ops[t][k].code != 'R') || n < 8 || !ex->obs.done[t][k]) continue;
+						for (t2 = t; t2 <= prog->nthr && !hit; ++t2) for (k2 = (t2 == t ? k + 1 : 0); k2 < prog->nops[t2] && !hit; ++k2)
+						{
+							int n2 = prog->ops[t2][k2].arg;
+							if ((prog->ops[t2][k2].code != 'S' && prog->ops[t2][k2].code != 'R') || n2 < 8 || !ex->obs.done[t2][k2]) continue;
+							for (i = 0; i + 8 <= n && !hit; ++i) for (j2 = 0; j2 + 8 <= n2; ++j2)
+								if (memcmp(ex->obs.out[t][k] + i, ex->obs.out[t2][k2] + j2, 8) == 0)
+								{
+									vadd(v, "RNG the same 8 octets of generator output were handed out twice (thread %d op %d offset %d, thread %d op %d offset %d)", t, k, i, t2, k2, j2);
+									hit = 1; break;
+								}
+						}
+					}
+				}
 			}
 			if (v->n == 0 && structural)
 			{
@@ -455,7 +477,7 @@ int main(int argc, char** argv)
 		{
 			int t = prog.seq_tid[i], k = prog.seq_op[i];
 			printf("T%d.%d %c ret %lu out ", t, k, prog.ops[t][k].code, ex_static.obs.ret[t][k]);
-			for (j = 0; j < 32; ++j) printf("%02x", ex_static.obs.out[t][k][j]);
+			for (j = 0; j < C18_OUT; ++j) printf("%02x", ex_static.obs.out[t][k][j]);
 			printf("\n");
 		}
 		return 0;
